@@ -35,6 +35,9 @@ structure HCfg where
   applyCreate : Apply
   applyDelete : Apply
   listeners : Nat
+  /-- positions (0 change … 4 delete) whose apply handler fails with `ErrNotFound` (a `*res.Error`)
+  rather than with an ordinary error: the event method panics with that value all the same -/
+  nfApply : List Nat := []
 deriving Repr
 
 inductive Payload | empty | bad | ok
@@ -65,6 +68,10 @@ inductive ErrV
   | go (msg : Str)           -- any other `error`
   | resBad                   -- a `*res.Error` whose `Data` cannot be marshalled
 deriving Repr, DecidableEq
+
+/-- the value an event method panics with when apply handler `i` fails -/
+def applyErrV (cfg : HCfg) (i : Nat) : ErrV :=
+  if cfg.nfApply.contains i then .res (b!"system.notFound") (b!"Not found") else .go (b!"apply failed")
 
 inductive PanicV
   | err (e : ErrV)
@@ -280,7 +287,7 @@ def act (cfg : HCfg) (r : ReqIn) (s : St) : Action → Step
     else
       let s1 := if cfg.applyChange = .absent then s else emit s (.apply "change")
       match cfg.applyChange with
-      | .err => .panic s1 (.err (.go (b!"apply failed")))
+      | .err => .panic s1 (.err (applyErrV cfg 0))
       | .okEmpty => .cont s1
       | _ =>
         let allOk := props.all (·.2.ok)
@@ -292,7 +299,7 @@ def act (cfg : HCfg) (r : ReqIn) (s : St) : Action → Step
     else if idx < 0 then strPanic s "res: add event idx less than zero"
     else
       let s1 := if cfg.applyAdd = .absent then s else emit s (.apply "add")
-      if cfg.applyAdd = .err then .panic s1 (.err (.go (b!"apply failed")))
+      if cfg.applyAdd = .err then .panic s1 (.err (applyErrV cfg 1))
       else
         let payload : JV := ⟨v.ok, obj [(b!"idx", intText idx), (b!"value", v.text)]⟩
         .cont (addAll (svcEvent s1 (evSubj r (b!"add")) (some payload)) (listenersOf cfg (b!"add")))
@@ -301,16 +308,16 @@ def act (cfg : HCfg) (r : ReqIn) (s : St) : Action → Step
     else if idx < 0 then strPanic s "res: remove event idx less than zero"
     else
       let s1 := if cfg.applyRemove = .absent then s else emit s (.apply "remove")
-      if cfg.applyRemove = .err then .panic s1 (.err (.go (b!"apply failed")))
+      if cfg.applyRemove = .err then .panic s1 (.err (applyErrV cfg 2))
       else
         .cont (addAll (svcEvent s1 (evSubj r (b!"remove")) (some ⟨true, obj [(b!"idx", intText idx)]⟩)) (listenersOf cfg (b!"remove")))
   | .create _ =>
     let s1 := if cfg.applyCreate = .absent then s else emit s (.apply "create")
-    if cfg.applyCreate = .err then .panic s1 (.err (.go (b!"apply failed")))
+    if cfg.applyCreate = .err then .panic s1 (.err (applyErrV cfg 3))
     else .cont (addAll (svcEvent s1 (evSubj r (b!"create")) none) (listenersOf cfg (b!"create")))
   | .delete =>
     let s1 := if cfg.applyDelete = .absent then s else emit s (.apply "delete")
-    if cfg.applyDelete = .err then .panic s1 (.err (.go (b!"apply failed")))
+    if cfg.applyDelete = .err then .panic s1 (.err (applyErrV cfg 4))
     else .cont (addAll (svcEvent s1 (evSubj r (b!"delete")) none) (listenersOf cfg (b!"delete")))
   | .custom name payload =>
     if reserved.contains name then strPanic s "res: reserved event name"
@@ -385,7 +392,8 @@ def encSeen (kind : String) (r : ReqIn) : Str :=
   (obj.joinWith 44 (r.params.map fun (k, v) => k ++ 61 :: v)) ++
   -- `ParseQuery()` is the standard library's parse of that same query (`url.ParseQuery`, errors
   -- ignored, the well-formed pairs kept); the harness compares the two and reports T/F
-  b!"|pq=T"
+  -- likewise header, host, remote address and URI: what the handler sees is what was sent
+  b!"|pq=T|md=T"
 
 /-- `processRequest` + `executeHandler`: all observable effects of one request -/
 def process (cfg : HCfg) (r : ReqIn) (script : List Action) : List Eff :=
